@@ -115,7 +115,7 @@ def main():
         c.finish()
     exe = common.build_ocaml(PID)
     quick = c.tier == "quick"
-    nprog = int(os.environ.get("VERIF_C19_N", 120 if quick else 3000))
+    nprog = int(os.environ.get("VERIF_C19_N", 120 if quick else 1500))
     jobs = []
     corpus_dir = os.path.join(common.VERIF, "corpus", PID)
     if os.path.isdir(corpus_dir):
